@@ -52,12 +52,20 @@ def make_block(rng):
     decode_expect = {}
     tags = set()
     lines = []
-    for _ in range(rng.randint(1, 12)):
-        if rng.random() < 0.12:
+    long_kind = rng.choice(("many_sets_on_one_line", "long_text_value")) if rng.random() < 0.06 else None
+    n_lines = rng.randint(1, 12)
+    long_at = rng.randrange(n_lines)
+    for li in range(n_lines):
+        if rng.random() < 0.12 and not (long_kind and li == long_at):
             lines.append(b"" if rng.random() < 0.7 else b"  ")
             continue
         line = ""
-        for _ in range(rng.choice((1, 1, 1, 2, 3))):
+        n_sets = rng.choice((1, 1, 1, 2, 3))
+        if long_kind == "many_sets_on_one_line" and li == long_at:
+            # one physical line of several thousand characters (no rule of the syntax limits it)
+            n_sets = rng.choice((90, 130, 200, 400))
+            tags.add("line_longer_than_2048")
+        for si in range(n_sets):
             # address
             while True:
                 r = rng.random()
@@ -99,7 +107,11 @@ def make_block(rng):
                     tags.add("other_unit")
                 else:
                     unit = None
-                    v = "".join(rng.choice(TEXT_CHARS) for _ in range(rng.randint(0, 24)))
+                    n_chars = rng.randint(0, 24)
+                    if long_kind == "long_text_value" and li == long_at and si == 0:
+                        n_chars = rng.choice((2040, 2047, 2048, 2049, 2100, 4096, 6000))  # e.g. the 1024-octet text message of DSMR, hex coded
+                        tags.add("line_longer_than_2048")
+                    v = "".join(rng.choice(TEXT_CHARS) for _ in range(n_chars))
                     tags.add("text_value")
                 vals.append((v, unit))
                 if nvals == 1:
